@@ -381,6 +381,10 @@ theorem value_le_funds (denom : String) (ops : List Op) (hne : ∀ op ∈ ops, o
 
 /-! ### D. Bridge lemmas: the source expressions behind the model -/
 
+/-- Tie to the code: the token table is searched by exact equality (the model's `findTok`), so the id a claim carries and the id a
+    batch is stored under are the same string whenever the claim has any effect. -/
+theorem fact_token_lookup_conds : Generated.token_lookup_conds =
+    "ExternalIdToTokenInfoLookup: info.ChainId == chainId.String() && info.ExternalTokenId == externalId | DenomToTokenInfoLookup: info.Denom == denom && info.ChainId == chainId.String() | TokenIdToTokenInfoLookup: info.Id == tokenId" := rfl
 theorem fact_ttc_mint_hub : Generated.ttc_mint_hub = "event.Amount" := rfl
 theorem fact_ttc_mint_other : Generated.ttc_mint_other = "event.Amount" := rfl
 theorem fact_ttcMintsAmountPlusFee : Generated.ttcMintsAmountPlusFee = false := by decide
